@@ -113,7 +113,12 @@ def check_record(args):
             if lst:
                 forms.append((['--attach-load=1,all,%d' % tags[o]], list(lst)))
         forms.append((['--attach-load=1,all'], [x for lst in opulses for x in lst]))
-        # a combination: all of one object plus a single pulse elsewhere
+        # combinations: one load attached twice -- every attachment adds its pulses, also a pulse named before
+        #   (two series elements on that pulse)
+        o_q = next(o for o, lst in enumerate(opulses) if q in lst)
+        forms.append((['--attach-load=1,%d' % (q + 1), '--attach-load=1,all,%d' % tags[o_q]], [q] + list(opulses[o_q])))
+        forms.append((['--attach-load=1,%d,%d' % rel[q], '--attach-load=1,%d' % (q + 1)], [q, q]))
+        forms.append((['--attach-load=1,all', '--attach-load=1,%d' % (q + 1)], [x for lst in opulses for x in lst] + [q]))
         for args_, exp in forms:
             m, txt = run_main(base + ['--excitation-pulse=1', '--load=7+3j'] + args_)
             if not isinstance(m, Mininec):
